@@ -172,16 +172,23 @@ class AbstractSpecification(object):
 
     @property
     def sampling_violation_counter(self):
+        # A specification with both interpreters is used either online or offline,
+        # so at most one of the two counters is different from 0.
+        counter = None
         if hasattr(self, 'online_interpreter'):
             if isinstance(self.online_interpreter, DiscreteTimeInterpreter):
-                return self.online_interpreter.sampling_violation_counter
+                counter = self.online_interpreter.sampling_violation_counter
             else:
                 RTAMTException('only discrete time has sampling_violation_counter')
         if hasattr(self, 'offline_interpreter'):
             if isinstance(self.offline_interpreter, DiscreteTimeInterpreter):
-                return self.offline_interpreter.sampling_violation_counter
+                if counter is None:
+                    counter = self.offline_interpreter.sampling_violation_counter
+                else:
+                    counter = counter + self.offline_interpreter.sampling_violation_counter
             else:
                 RTAMTException('only discrete time has sampling_violation_counter')
+        return counter
 
     @property
     def sampling_tolerance(self):
